@@ -396,6 +396,20 @@ func init() {
 					}
 				}
 			}
+		case "numeric":
+			// entry names that read as integers (with sign, leading zeros) next to near-misses: a path segment made of
+			// such a name is still a *name*, for every lookup entry point, builder and directory form
+			u := []string{"0", "7", "12", "2024", "007", "-1", "+5", "9223372036854775807", "1e3", "12abc", "0x10", "99", "-0", "١٢"}
+			ids := []int{1, 2, 3, 4, 5, 6, 7, 8, 9, 10, 11}
+			for _, f := range parseInts(*fanouts) {
+				for _, bld := range []string{"sharded", "boxo", "dir", "quick"} {
+					dc := &DirCase{Fam: "dir", ID: fmt.Sprintf("numeric-%d-%s", f, bld), Builder: bld, Fanout: f, Universe: u, Entries: ids,
+						Links: links(ids), Open: "reify", Mode: "sets", Script: fullDirScript(len(u), allHows)}
+					if err := runDirCase(dc, tr); err != nil {
+						return err
+					}
+				}
+			}
 		case "coldlookups":
 			// every name looked up on a *fresh* node (cold shard cache): what one lookup fetches must not depend on
 			// what earlier lookups happened to cache
@@ -471,7 +485,8 @@ func init() {
 							}
 							for _, bld := range []string{"sharded", "boxo"} {
 								dc := &DirCase{Fam: "dir", ID: fmt.Sprintf("%s-%d-%s-%v-m%d-%s", *what, f, style, s, m, bld), Builder: bld, Fanout: f,
-									Universe: u, Entries: s, Links: links(s), Open: "reify", Mode: "fault", NotFound: m%3 == 0, Timeout: m%3 == 1}
+									Universe: u, Entries: s, Links: links(s), Open: "reify", Mode: "fault", NotFound: m%3 == 0, Timeout: m%3 == 1,
+									ErrKind: map[bool]string{true: "eofwrap"}[bld == "boxo"]}
 								if bld == "boxo" && len(s) == 0 {
 									continue
 								}
@@ -480,6 +495,8 @@ func init() {
 								}
 								if *what == "preload" {
 									dc.Open = "preload"
+									// half of the own-built directories additionally hold an emptied child shard
+									dc.EmptyShard = bld == "sharded" && (m+len(s))%2 == 1
 									if m == 0 {
 										dc.Mode = "seq"
 									}
